@@ -161,7 +161,7 @@ func scriptedFaults(sc Scenario) (lines []Line, err error) {
 
 func isEnvAct(a string) bool {
 	switch a {
-	case "Tick", "AdminLock", "AdminUnlock", "RestartConfirm", "UpdatePassword", "StealCookie", "DropSession", "JunkCookie", "AppKey":
+	case "Tick", "Tock", "AdminLock", "AdminUnlock", "RestartConfirm", "UpdatePassword", "StealCookie", "DropSession", "JunkCookie", "AppKey":
 		return true
 	}
 	return false
